@@ -62,6 +62,8 @@ func c17Copy(c *Ctx, rel string) {
 		return f
 	}
 
+	pureScan(c, K("C17.pure.no-package-state"), meth("Add"), meth("Double"), meth("ScalarMult"), meth("ScalarBaseMult"), meth("IsOnCurve"))
+
 	// ---- modinverse-nil (all functions of the package)
 	nInv := 0
 	for _, fn := range c.P.RepoFuncs(rel) {
